@@ -125,7 +125,7 @@ def refuses(pos: int, k0: bool, k1: bool, n0: bool, n1: bool, s0: bool, s1: bool
     """
     The parser refuses the text WITHOUT a SyntaxError - UnicodeEncodeError at a symbolic position (what CPython raises for a
     lone surrogate), RecursionError (expression nested too deeply for the AST builder), plain ValueError (the NUL-byte
-    refusal of older CPythons): verify() still returns False without raising, attaches exactly one triggered
+    refusal of older CPythons), MemoryError (CPython's 'too complex to parse'): verify() still returns False without raising, attaches exactly one triggered
     syntax-category feedback located on a line of the file (CPython names no line), and stores an empty tree.
 
     pre: 0 <= pos <= 6
@@ -134,7 +134,7 @@ def refuses(pos: int, k0: bool, k1: bool, n0: bool, n1: bool, s0: bool, s1: bool
     if tick():
         return True
     kind, nfile, sec_off = bits(k0, k1), bits(n0, n1), bits(s0, s1)
-    if kind >= 3 or nfile >= 3 or sec_off >= 3:
+    if nfile >= 3 or sec_off >= 3:
         return True
     r, code = _setup(nfile, sec_off)
     if kind == 0:
@@ -143,8 +143,10 @@ def refuses(pos: int, k0: bool, k1: bool, n0: bool, n1: bool, s0: bool, s1: bool
         exc = UnicodeEncodeError("utf-8", code, pos, pos + 1, "surrogates not allowed")
     elif kind == 1:
         exc = RecursionError("maximum recursion depth exceeded during ast construction")
-    else:
+    elif kind == 2:
         exc = ValueError("source code string cannot contain null bytes")
+    else:
+        exc = MemoryError("Parser stack overflowed - Python source too complex to parse")
     _state["raise"] = exc
     before = len(r.feedback) + len(r.ignored_feedback)
     try:
@@ -166,7 +168,8 @@ def refuses(pos: int, k0: bool, k1: bool, n0: bool, n1: bool, s0: bool, s1: bool
 
 def accepts(n0: bool, n1: bool, s0: bool, s1: bool, blank: bool) -> bool:
     """
-    The parser accepts: no syntax feedback (blank text: exactly the blank_source feedback), the stored tree is the
+    The parser accepts: no syntax feedback (blank text, verified AFTER a non-blank program on the same report: exactly the
+    blank_source feedback and the stored tree is the empty module, not the earlier program's), the stored tree is the
     parser's own object.
 
     pre: True
@@ -179,13 +182,19 @@ def accepts(n0: bool, n1: bool, s0: bool, s1: bool, blank: bool) -> bool:
         return True
     r, code = _setup(nfile, sec_off)
     if blank:
+        # history: the report has already verified a non-blank program; then the text becomes blank
+        verify(report=r)
+        if not isinstance(r["source"]["ast"], real_ast.Module) or not r["source"]["ast"].body:
+            return False
         code = ["", " ", "\n \t\n"][nfile]
         r.submission.replace_main(code)
     _state["returned"] = None
     res = verify(report=r)
     new = r.feedback + r.ignored_feedback
     if blank:
-        return len(new) == 1 and new[0].label == "blank_source" and new[0].category == "syntax" and bool(new[0])
+        tree = r["source"]["ast"]          # the stored tree is CPython's tree for the blank text: an empty module
+        return (len(new) == 1 and new[0].label == "blank_source" and new[0].category == "syntax" and bool(new[0])
+                and isinstance(tree, real_ast.Module) and tree.body == [])
     return (res is True and new == [] and r["source"]["ast"] is _state["returned"]
             and r["source"]["success"] is True)
 
@@ -234,13 +243,14 @@ REAL_SOURCES = [
     "def f():\n\tif 1:\n\t\tpass\n\telse:\n\t    pass\n", "x = '\\N{DOES NOT EXIST}'\n",
     # texts the parser refuses without a SyntaxError: lone surrogates (UnicodeEncodeError), very deep expressions (RecursionError)
     "a = '\ud800'\n", "x = 1\n# \udc80\n", "x = 1\ny = " + "+".join(["1"] * 3000) + "\n", "x = " + "-" * 3000 + "1\n",
-    "x = y" + ".a" * 3000 + "\n", "x = " + "(" * 300 + ")" * 300 + "\n",
+    "x = y" + ".a" * 3000 + "\n", "x = " + "(" * 300 + ")" * 300 + "\n", "x = " + "-" * 100000 + "1\n",
+    "a = 1\rb b", "a = 1\rb = 2\rprint(a b)\r", "\xa0", "x = 1\n\x0c\ny = (\n",
 ]
 
 
 def real_sources(k0: bool, k1: bool, k2: bool, k3: bool, k4: bool, k5: bool, offset2: bool) -> bool:
     """
-    38 concrete sources (valid programs; texts refused without a SyntaxError - lone surrogates, very deep expressions; errors of every harvested shape; NUL, CR, CRLF, form feed, non-ASCII identifiers,
+    44 concrete sources (valid programs; texts refused without a SyntaxError - lone surrogates, very deep expressions; errors of every harvested shape; NUL, CR, CRLF, form feed, non-ASCII identifiers,
     type comments, tabs vs spaces, unterminated strings, bad escapes) through the real verify(): never raises; a
     syntax-category error feedback iff ast.parse rejects the text; its line is CPython's line (+ the section offset); on
     acceptance the stored tree equals CPython's and no syntax feedback exists (blank text: blank_source).
@@ -259,7 +269,26 @@ def real_sources(k0: bool, k1: bool, k2: bool, k3: bool, k4: bool, k5: bool, off
         return _real_source(REAL_SOURCES[k], offset)
 
 
-def _real_source(code, offset):
+def explicit_file(k0: bool, k1: bool, k2: bool, k3: bool, k4: bool, k5: bool) -> bool:
+    """
+    The same texts handed to verify(code, filename="other.py", report=r) EXPLICITLY while r's submission is a different,
+    valid three-line main file: never raises; a syntax-category error feedback iff ast.parse rejects the given text; its
+    line is CPython's line; on acceptance the stored tree equals CPython's.
+
+    pre: True
+    post: _
+    """
+    if tick():
+        return True
+    k = bits(k0, k1, k2, k3, k4, k5)
+    if k >= len(REAL_SOURCES):
+        return True
+    from crosshair.tracers import NoTracing
+    with NoTracing():
+        return _real_source(REAL_SOURCES[k], 0, explicit=True)
+
+
+def _real_source(code, offset, explicit=False):
     import warnings
     saved = SRC.ast
     SRC.ast = real_ast                      # bypass the parser stub for this obligation
@@ -270,15 +299,19 @@ def _real_source(code, offset):
                 want_tree, want_err = real_ast.parse(code, "answer.py"), None
         except SyntaxError as e:
             want_tree, want_err = None, e
-        except (ValueError, RecursionError) as e:         # refused without a SyntaxError (and without a line)
+        except (ValueError, RecursionError, MemoryError) as e:         # refused without a SyntaxError (and without a line)
             want_tree, want_err = None, SyntaxError(str(e))
         r = Report()
-        r.contextualize(Submission({"answer.py": code}, "answer.py", code))
+        if explicit:
+            main = "a = 1\nb = 2\nc = 3"
+            r.contextualize(Submission({"answer.py": main}, "answer.py", main))
+        else:
+            r.contextualize(Submission({"answer.py": code}, "answer.py", code))
         if offset:
             r.submission.set_line_offset(offset)
         with warnings.catch_warnings():
             warnings.simplefilter("ignore")
-            res = verify(report=r)
+            res = verify(code, filename="other.py", report=r) if explicit else verify(report=r)
         errs = [f for f in r.feedback + r.ignored_feedback if f.label in ("syntax_error", "indentation_error")]
         if want_err is None:
             if errs:
